@@ -357,6 +357,9 @@ def run_history(S, backend="mem", steps=3, pre=1, ops_allowed=None, cancel_last=
             menu += [("advance", None)]
             if A.has_finish and held:
                 menu += [("finish", "NORMAL")]
+                # a DELAYED / DEAD-category reader that is closed while it still holds a message (in-memory broker)
+                if A.finish_returns_held:
+                    menu += [("finish", c) for c in ("DELAYED", "DEAD") if any(model.m[h]["origin"] == c for h in held)]
             if ops_allowed is not None:
                 menu = [x for x in menu if x[0] in ops_allowed]
             op, arg = menu[S.pick(f"op{step}", len(menu))]
@@ -423,7 +426,7 @@ def run_history(S, backend="mem", steps=3, pre=1, ops_allowed=None, cancel_last=
                 await A.finish(arg)
                 for i, v in model.m.items():
                     if A.finish_returns_held and v["place"] == "held" and v["origin"] == arg:
-                        v.update(place="waiting")
+                        v.update(place={"NORMAL": "waiting", "DELAYED": "delayed", "DEAD": "dead"}[arg])
                         if hasattr(A, "settled"):
                             A.settled(i)
                 S.cover("finish")
